@@ -583,6 +583,10 @@ func TestKeepUntyped(t *testing.T) {
 // ---------------------------------------------------------------- replay
 
 func replay(content []byte) error {
+	var sess session
+	if json.Unmarshal(content, &sess) == nil && len(sess.Lines) > 0 {
+		return checkSession(sess, allMasks())
+	}
 	p, ok := gobatch.ParseReplay(content)
 	if !ok {
 		return nil
